@@ -394,6 +394,11 @@ func checkC13(c *Ctx) (int, error) {
 						f2 := &RCase{ID: fmt.Sprintf("C13-%d-nb-fresh", id), Kind: kind, Arch: arch, Group: g2, GClause: "C13.same_as_fresh", Tag: "fresh|" + nx.name + "|" + k2, Segs: []RSeg{n2}}
 						h2 := h1
 						if same {
+							// the earlier stream is long enough for the Reader's own read-ahead to hold bytes
+							// of it when it is abandoned, and is followed by other data when it is read to its end
+							h2.Stream = encStream("std", kind, 6, DataSpec{Class: "text", Seed: int64(id), Len: 60000}, nil)
+							h2.Stream.Mut = []Mutation{{Op: "append", N: 3000, Seed: int64(id)}}
+							h2.Multi = false
 							h2.Src = srcWith(RSource{Kind: k2}, nil)
 							n2.SameSrc = true
 						}
